@@ -32,8 +32,11 @@ from vlib import core, tlaval
 from vlib.core import MachineryError
 
 TRACKED = ["Small", "Big", "STM", "NC"]
-UNTRACKED = ["Int", "Str", "CStr", "Fn", "Sp", "Ov", "Nest"]
+UNTRACKED = ["Int", "Str", "CStr", "Fn", "Sp", "Ov", "Nest", "Ov32", "Ov64", "P16", "P17"]
 TYPES = TRACKED + UNTRACKED
+XTYPES = ["Var", "Fs", "Opt"]      # xtl::variant<int,string>, xfixed_string<23>, xoptional<int>: only in builds where the probe "XTYPES" compiles
+OVERALIGNED = ["Ov32", "Ov64"]
+ALLOCATING_OPS = ("Construct", "CopyConstruct", "CopyAssign", "AssignValue")
 NEVER = ["CharP", "AnyT", "Arr"]
 VALUE_FORMS = ["lv", "clv", "rv", "crv"]
 PTR_FORMS = ["p_m", "p_mc", "p_c", "p_cc", "p_n", "p_nc"]
@@ -57,9 +60,15 @@ FLAVOURS = {
     "clang": {"flags": [], "cxx": "clang++"},
     "O0":    {"flags": ["-O0"]},
     "O2":    {"flags": ["-O2"]},
+    # round 3: the language level at which plain `new T` honours over-alignment, and the macro combinations
+    "cxx17":    {"flags": ["-std=c++17"], "aligned_new": True},
+    "fastmov":  {"flags": ["-DANY_IMPL_FAST_TYPE_INFO_COMPARE", "-DANY_IMPL_ANY_CAST_MOVEABLE"]},
+    "movnoexc": {"flags": ["-DANY_IMPL_ANY_CAST_MOVEABLE", "-DXTL_NO_EXCEPTIONS"]},
+    "all3":     {"flags": ["-DANY_IMPL_FAST_TYPE_INFO_COMPARE", "-DANY_IMPL_ANY_CAST_MOVEABLE", "-DXTL_NO_EXCEPTIONS"]},
 }
-QUICK_FLAVOURS = ["std", "fast", "mov", "noexc"]
-ALL_FLAVOURS = ["std", "fast", "mov", "noexc", "clang", "O0", "O2"]
+NOEXC_FLAVOURS = ("noexc", "movnoexc", "all3")
+QUICK_FLAVOURS = ["std", "fast", "mov", "noexc", "cxx17"]
+ALL_FLAVOURS = ["std", "fast", "mov", "noexc", "cxx17", "clang", "O0", "O2", "fastmov", "movnoexc", "all3"]
 MAX_REPORTED = 5          # distinct violations reported with a replay file
 MAX_CONFIRM = 8           # rejections executed again and explained
 MAX_RESTARTS_VALIDATE = 4 # rejected executions cut out of one trace file before the rest of the file is given up
@@ -133,6 +142,7 @@ TRAIT_EXPR = {
     "constructible_from_array": "std::is_constructible<xtl::any, const char (&)[4]>::value",
     "constructible_from_function": "std::is_constructible<xtl::any, int (&)(int)>::value",
     "assignable_from_value": "std::is_assignable<xtl::any&, {U}>::value && std::is_assignable<xtl::any&, {U} const&>::value",
+    "copy_from_const_rvalue": "std::is_constructible<xtl::any, const xtl::any&&>::value && std::is_assignable<xtl::any&, const xtl::any&&>::value",
 }
 
 
@@ -144,6 +154,7 @@ TRAIT_CALL = {
     "copy_constructible": "xtl::any a(b); xtl::any c(static_cast<const xtl::any&>(b)); (void)a; (void)c; (void)u;",
     "copy_assignable": "xtl::any a; a = b; a = static_cast<const xtl::any&>(b); (void)u;",
     "move_constructible": "xtl::any a(std::move(b)); (void)a; (void)u;",
+    "copy_from_const_rvalue": "xtl::any a(static_cast<const xtl::any&&>(b)); a = static_cast<const xtl::any&&>(b); (void)u;",
 }
 
 
@@ -281,6 +292,9 @@ PROBE_BODY = {
     "emplace": "void f(xtl::any& a) { a.emplace<int>(1); }",
     "make_any": "void f() { xtl::any a = xtl::make_any<int>(1); (void)a; }",
     "in_place": "void f() { xtl::any a(xtl::in_place_type_t<int>(), 1); (void)a; }",
+    "XTYPES": "#include <xtl/xvariant.hpp>\n#include <xtl/xbasic_fixed_string.hpp>\n#include <xtl/xoptional.hpp>\n"
+              "void f() { xtl::any a(xtl::variant<int, std::string>(1)); xtl::any b(xtl::xfixed_string<23>(\"s1\")); xtl::any c(xtl::xoptional<int, bool>(1, true)); "
+              "a = b; b = xtl::variant<int, std::string>(std::string(\"x\")); (void)xtl::any_cast<xtl::xoptional<int, bool>&>(c); (void)xtl::any_cast<xtl::xfixed_string<23>>(&b); }",
     "nest_any": "void f(xtl::any& a) { xtl::any b(a); static_assert(sizeof(b) > 0, \"\"); struct W { xtl::any in; }; xtl::any c(W{a}); (void)c; }",
 }
 
@@ -290,7 +304,7 @@ def run_probes(ctx, flavours):
     pdir = ctx.sub("probes")
     jobs = []
     for fl in flavours:
-        for name in ("LR", "XR", "CXR"):
+        for name in ("LR", "XR", "CXR", "XTYPES"):
             jobs.append((fl, name))
     for name in ("emplace", "make_any", "in_place", "nest_any"):
         jobs.append(("std", name))
@@ -311,7 +325,7 @@ def run_probes(ctx, flavours):
     table = {}
     for (fl, name), ok in zip(jobs, res):
         table.setdefault(name, {})[fl] = ok
-        if ok and name in ("LR", "XR", "CXR"):
+        if ok and name in ("LR", "XR", "CXR", "XTYPES"):
             feats[fl].add(name)
     ctx.notes["compile_probes"] = table
     ctx.log("compile probes: " + "; ".join("%s: %s" % (n, ",".join(f for f, ok in sorted(v.items()) if ok) or "absent") for n, v in sorted(table.items())))
@@ -345,12 +359,16 @@ class Gen:
         self.nk = nk
         self.c = [False] * nk
         self.noexc = noexc
-        self.types = types
+        self.types = list(types) + (XTYPES if "XTYPES" in feats else [])
         self.cast_forms = CAST_FORMS + [f for f, ft in OPEN_FORMS.items() if ft in feats]
 
     def fuse(self, p=0.3):
         x = self.r.random()
         return 0 if x >= p else (1 if x < p * 0.8 else 2)
+
+    def afuse(self, p=0.14):
+        """allocation-failure fuse: the n-th request for storage inside the library's part of the call fails"""
+        return self.r.choice([1, 1, 2]) if self.r.random() < p else 0
 
     def typ(self):
         r = self.r
@@ -372,20 +390,21 @@ class Gen:
         if raw and (not con or r.random() < 0.35):
             k = r.choice(raw)
             f = self.fuse()
+            af = self.afuse()
             t = r.random()
             if t < 0.5 or not con:
                 if t < 0.08:
                     out.append(ev("DefaultConstruct", k + 1, fuse=f))
                 else:
                     ty = self.typ()
-                    out.append(ev("Construct", k + 1, t=ty, v=val_for(r, ty), form=form_for(r, ty), fuse=f))
+                    out.append(ev("Construct", k + 1, t=ty, v=val_for(r, ty), form=form_for(r, ty), fuse=f, afuse=af))
             else:
                 j = r.choice(con)
                 if t < 0.78:
-                    out.append(ev("CopyConstruct", k + 1, j=j + 1, fuse=f, nc=r.randrange(2)))
+                    out.append(ev("CopyConstruct", k + 1, j=j + 1, fuse=f, afuse=af, nc=r.randrange(3)))
                 else:
                     out.append(ev("MoveConstruct", k + 1, j=j + 1, fuse=f))
-            if f and out[-1]["op"] in ("Construct", "CopyConstruct"):
+            if (f or af) and out[-1]["op"] in ("Construct", "CopyConstruct"):
                 out.append(ev("DestroyIf", k + 1))
             else:
                 self.c[k] = True
@@ -395,12 +414,12 @@ class Gen:
         c = r.random()
         f = self.fuse()
         if c < 0.12:
-            return [ev("CopyAssign", k + 1, j=j + 1, fuse=f, nc=r.randrange(2))]
+            return [ev("CopyAssign", k + 1, j=j + 1, fuse=f, afuse=self.afuse(), nc=r.randrange(3))]
         if c < 0.22:
             return [ev("MoveAssign", k + 1, j=j + 1, fuse=f)]
         if c < 0.34:
             ty = self.typ()
-            return [ev("AssignValue", k + 1, t=ty, v=val_for(r, ty), form=form_for(r, ty), fuse=f)]
+            return [ev("AssignValue", k + 1, t=ty, v=val_for(r, ty), form=form_for(r, ty), fuse=f, afuse=self.afuse())]
         if c < 0.48:
             return [ev(r.choice(["Swap", "Swap", "StdSwap"]), k + 1, j=j + 1, fuse=f)]
         if c < 0.53:
@@ -518,7 +537,7 @@ def edge_scripts(edges, rnd, feats):
         for c in calls:
             call = {"op": c["l"]["op"], "k": c["l"]["k"], "a": dict(c["l"]["a"])}
             if call["op"] in ("CopyConstruct", "CopyAssign"):
-                call["a"]["nc"] = rnd.randrange(2)
+                call["a"]["nc"] = rnd.randrange(3)
             put([call], c["x"])
             taken += 1
             if call["op"] in PURE_OPS:
@@ -821,7 +840,7 @@ def validate_rounds(ctx, jobs, max_restarts, enough):
     return [(st["matched"], st["rej"], 0 if st["done"] else st["left"]) for st in state]
 
 
-PARTS = ["precondition", "lifetime_events_ok", "no_leak_no_dangling_independent", "postcondition", "observers_consistent"]
+PARTS = ["precondition", "lifetime_events_ok", "no_leak_no_dangling_independent", "postcondition", "observers_consistent", "storage_returned"]
 
 
 def failing_part(expected):
@@ -1017,7 +1036,7 @@ def selftest(ctx):
     exactly where they are."""
     ctx.notes["_feats"] = feats = run_probes(ctx, ["std"])
     drv = build_driver(ctx, "std", feats["std"])
-    lines = random_script(ctx.seed, 6, 40)
+    lines = random_script(ctx.seed, 16, 60)      # long enough for every kind of line the edits below look for
     sp, tp = os.path.join(ctx.work, "st.script"), os.path.join(ctx.work, "st.ndjson")
     run_script(drv, lines, sp, tp)
     r = core.validate_trace(ctx, TRACE_SPEC, TRACE_CFG, tp)
@@ -1058,6 +1077,10 @@ def selftest(ctx):
     ok &= variant("corrupted-ev.src", lambda l: any(x["kind"] == "copy" and x["e"] == "ctor" for x in json.loads(l).get("ev", [])), e_src)
     ok &= variant("corrupted-owner-count", lambda l: '"spc":[{' in l, e_spc)
     ok &= variant("second-any_cast-hit", lambda l: '"has":true' in l, e_hits)
+    def e_heap(d):
+        d["heap"] += 1
+
+    ok &= variant("outstanding-block-with-nothing-contained", lambda l: '"has":true' not in l and '"heap":0' in l and l.startswith('{"op":"Destroy'), e_heap)
     ok &= variant("removed-line", lambda l: l.startswith('{"op":"Construct"') and '"exc":"none"' in l, lambda d: "delete")
     print("selftest %s" % ("ok" if ok else "FAILED"))
     return 0 if ok else 2
@@ -1138,12 +1161,12 @@ def run(ctx):
     # ---- 4. C->S: random scripts (they do not depend on TLC: executed while TLC is still running)
     nops = 45 if q else 50
     plan = [("std", 120 if q else 3000, 3 if q else 12), ("fast", 40 if q else 800, 1 if q else 3), ("mov", 40 if q else 800, 1 if q else 3),
-            ("noexc", 30 if q else 150, 1 if q else 2)]
+            ("noexc", 30 if q else 150, 1 if q else 2), ("cxx17", 40 if q else 800, 1 if q else 3)]
     if not q:
-        plan += [("clang", 1200, 4), ("O0", 600, 2), ("O2", 1200, 4)]
+        plan += [("clang", 1200, 4), ("O0", 600, 2), ("O2", 1200, 4), ("fastmov", 600, 2), ("movnoexc", 100, 1), ("all3", 100, 1)]
     nexec_rnd = 0
     for salt, (fl, nexec, nch) in enumerate(plan):
-        lines = random_script(ctx.seed, nexec, nops, feats[fl], noexc=(fl == "noexc"), salt=salt)
+        lines = random_script(ctx.seed, nexec, nops, feats[fl], noexc=(fl in NOEXC_FLAVOURS), salt=salt)
         nexec_rnd += nexec
         for i, (ch, _) in enumerate(chunk_by_reset(lines, [None] * len(lines), nch)):
             add("rnd-%s-%02d" % (fl, i), fl, ch)
@@ -1153,7 +1176,7 @@ def run(ctx):
 
     def execute(job):
         job["run"] = run_script(drivers[job["flavour"]], job["lines"], job["script"], job["trace"],
-                                max_restarts=(len(job["lines"]) if job["flavour"] == "noexc" else 25))
+                                max_restarts=(len(job["lines"]) if job["flavour"] in NOEXC_FLAVOURS else 25))
         return job
 
     hpool = ThreadPoolExecutor(max_workers=max(2, NW // 2))
@@ -1197,7 +1220,7 @@ def run(ctx):
             add("s2c-%s-%02d" % (tag, i), "std", ch, ex, model=False)
         # ... and a sample of them on the other builds
         for fl in flavours:
-            if fl in ("std", "noexc"):
+            if fl == "std" or fl in NOEXC_FLAVOURS:
                 continue
             sub = [e for e in edges if rnd.random() < (0.12 if q else 0.15)]
             lines, exp, taken = edge_scripts(sub, rnd, feats[fl])
@@ -1229,6 +1252,7 @@ def run(ctx):
     pool.shutdown()
 
     ncalls, npred, nthrow, restarts, dropped, kinds, nleak, cast_hits = 0, 0, 0, 0, 0, {}, 0, {}
+    nalloc, n_crv, n_over, misaligned = 0, 0, {}, {}
     for job in jobs:
         rr, lines, tp = job["run"], job["lines"], job["trace"]
         ncalls += sum(1 for l in lines if l["op"] != "Reset")
@@ -1240,6 +1264,13 @@ def run(ctx):
         with open(tp) as f:
             txt = f.read()
         nthrow += txt.count('"exc":"fuse"')
+        nalloc += txt.count('"exc":"bad_alloc"')
+        n_crv += txt.count('"nc":2')
+        for t in OVERALIGNED:
+            n_over[t] = n_over.get(t, 0) + txt.count('"ty":"%s"' % t)
+        nmis = txt.count('"xal":false')
+        if nmis:
+            misaligned[job["flavour"]] = misaligned.get(job["flavour"], 0) + nmis
         for m in _RE_CAST.finditer(txt):           # successful casts by stored type and call form (vacuity evidence)
             am = dict(_RE_KV.findall(m.group(1)))
             if "t" in am and "form" in am:
@@ -1267,6 +1298,17 @@ def run(ctx):
     missing = [f for f in ("p_mc", "p_c", "p_cc", "v_c", "v_cc", "r_mc", "r_c") if not cast_hits.get("Small:" + f)]
     ctx.notes["calls_executed_on_real_objects"] = ncalls
     ctx.notes["injected_throws_observed"] = nthrow
+    ctx.notes["allocation_failures_observed"] = nalloc
+    ctx.notes["copies_from_a_const_rvalue_any"] = n_crv
+    ctx.notes["observations_of_over_aligned_payloads"] = n_over
+    # over-aligned payloads (alignas(32/64)): the stored object's address is observable.  Plain `new T` honours the alignment only
+    # from C++17 on; a misaligned object in a C++14 build is the language's limitation (recorded), in a C++17 build it is reported
+    # as an advisory deviation (the property statement does not speak about alignment)
+    ctx.notes["over_aligned_payload_observed_misaligned"] = misaligned
+    for fl, n in sorted(misaligned.items()):
+        if FLAVOURS[fl].get("aligned_new"):
+            ctx.drift.append("ADVISORY over-aligned payload (alignas(32)/alignas(64)) stored at an address that is not aligned for its type, "
+                             "%d observations on build '%s' where the allocation function honours over-alignment" % (n, fl))
     ctx.notes["l2_predictions_compared"] = npred
     ctx.notes["driver_restarts"] = {"restarts": restarts, "by_cause": kinds, "executions_dropped_after_restart_cap": dropped}
     ctx.sample({"script": [json.dumps(x) for x in jobs[0]["lines"][:10]]})
@@ -1277,6 +1319,22 @@ def run(ctx):
     # ---- validate every trace against L1
     validate_all(ctx, drivers, jobs, findings)
     ctx.cov["evaluations"] += ctx.cov["events_validated"]
+
+    # ---- advisory: the documented behaviour of the value any_cast (Any!CastDocOK) on one random trace per macro family
+    if not ctx.violations:
+        strict_jobs = [j for j in jobs if j["name"] in ("rnd-std-00", "rnd-mov-00", "rnd-cxx17-00", "rnd-fastmov-00", "rnd-clang-00")]
+        nstrict = 0
+        for j in strict_jobs:
+            r = core.validate_trace(ctx, TRACE_SPEC, "AnyTrace_strict.cfg", j["trace"], explain=True, env=JENV)
+            nstrict += r.get("matched", 0)
+            if not r["accepted"]:
+                with open(j["trace"]) as f:
+                    tl = [l.rstrip("\n") for l in f if l.strip()]
+                bad = tl[r["fail_line"]] if r["fail_line"] < len(tl) else "?"
+                ctx.drift.append("ADVISORY documented any_cast behaviour (exactly one constructor call from the stored object; a move only for "
+                                 "any_cast<T>(any&&) under ANY_IMPL_ANY_CAST_MOVEABLE) not met on build '%s': %s ; spec: %s" % (
+                                     j["flavour"], bad[:500], (r.get("expected") or "?")[:600]))
+        ctx.notes["lines_validated_against_documented_cast_behaviour"] = nstrict
     ctx.log("validated %d lines in %d traces (%d executions, %d injected throws observed, %d L2 predictions compared, %d driver restarts)" % (
         ctx.cov["events_validated"], len(jobs), ctx.cov["traces_validated_against_impl"], nthrow, npred, restarts))
 
@@ -1287,6 +1345,10 @@ def run(ctx):
             ctx.notes["l2_refinement"] = "failed-not-reproduced"
     if nthrow == 0 and not ctx.violations:
         raise MachineryError("vacuous run: the fault fuse never fired")
+    if nalloc == 0 and not ctx.violations:
+        raise MachineryError("vacuous run: the allocation-failure fuse never fired")
+    if (n_crv == 0 or not all(n_over.get(t) for t in OVERALIGNED)) and not ctx.violations:
+        raise MachineryError("vacuous run: no copy from a const rvalue any / no over-aligned payload observed (%d, %s)" % (n_crv, n_over))
     if missing and not ctx.violations:
         raise MachineryError("vacuous run: no successful any_cast on a stored Small through the forms %s" % missing)
     if kinds.get("terminate", 0) == 0 and "noexc" in flavours and not ctx.violations:
@@ -1302,18 +1364,26 @@ def finish(ctx, q, feats, taken, nwalks, nexec):
         rule="TLC: L1 (Any.tla) over 3 any objects x {3 instrumented payload types | NC, shared_ptr, const char*} x 2 values (+moved-from), all "
              "outcomes the standard allows, fuse 0..1%s; L2 (AnyImpl.tla) => L1 over every representation state x every call x argument x "
              "fuse 0..%d for {Small, Big, STM} and for payloads without events; %d of the L2 transitions and %d simulation walks replayed on "
-             "real xtl::any objects, %d random executions over 3-5 objects and 11 payload types, on %d builds of the driver (%s); a case is "
-             "one public call with its element events, result, the observers' report on all five objects and the shared_ptr owner counts, "
-             "validated by TLC against L1; plus the rows of AnyTypes.tla compiled as static_asserts and calls."
+             "real xtl::any objects, %d random executions over 3-5 objects and 18 payload types, on %d builds of the driver (%s); a case is "
+             "one public call (source any passed as const lvalue / lvalue / const rvalue; allocation-failure fuse 0..2 on the four allocating "
+             "calls) with its element events, result, the observers' report on all five objects, the shared_ptr owner counts and the number of "
+             "outstanding library-made heap blocks, validated by TLC against L1; plus the rows of AnyTypes.tla compiled as static_asserts and calls."
              % ("" if q else "; 4 objects in a third configuration", 1 if q else 2, taken, nwalks, nexec, len(feats), ", ".join(sorted(feats))),
         assumptions=["payload objects of the instrumented types are identified by address through the harness registry; ids are assigned in construction order",
                      "the projection uses has_value()/empty()/type()/any_cast<T>(any*)/any_cast<T>(const any*) over all 13 candidate types of the object under test",
                      "payload types: Small (16 bytes, nothrow move, throwing copy), NC (16 bytes, nothrow copy and move), Big (24 bytes), STM (16 bytes, throwing move); "
                      "without events: int, std::string, const char* (also from an array), int(*)(int) (also from a function), shared_ptr<int> (owner count "
-                     "observed), a 16-byte alignas(16) struct, a struct containing an any that contains a shared_ptr (xtl::any cannot hold an xtl::any directly)",
-                     "builds: g++ -O1 with each of ANY_IMPL_FAST_TYPE_INFO_COMPARE, ANY_IMPL_ANY_CAST_MOVEABLE, XTL_NO_EXCEPTIONS alone (not combined); "
-                     "clang++ and -O0/-O2 in the thorough tier only; one translation unit, one thread, libstdc++, x86-64",
-                     "types over-aligned beyond alignof(max_align_t), types whose operator new is replaced, volatile-qualified cast targets, type_info "
-                     "objects from other shared libraries (the case ANY_IMPL_FAST_TYPE_INFO_COMPARE is unsafe for) and allocation failure are not exercised",
+                     "observed), a 16-byte alignas(16) struct, a struct containing an any that contains a shared_ptr (xtl::any cannot hold an xtl::any directly), "
+                     "alignas(32) and alignas(64) structs, byte-aligned structs of 16 and 17 bytes, and (where the probe XTYPES compiles) "
+                     "xtl::variant<int,std::string>, xtl::xfixed_string<23>, xtl::xoptional<int,bool>",
+                     "the global operator new/delete are replaced in the driver (malloc based, counting); the allocation fuse fails the n-th request made "
+                     "while the library executes Construct/CopyConstruct/CopyAssign/AssignValue (the driver's own bookkeeping inside payload callbacks is exempt)",
+                     "alignment beyond alignof(max_align_t) and the documented copy/move choice of the value any_cast are advisory (the statement is silent); "
+                     "a misaligned over-aligned payload is reported only for the -std=c++17 build, where operator new honours the alignment",
+                     "builds: g++ -O1 with each of ANY_IMPL_FAST_TYPE_INFO_COMPARE, ANY_IMPL_ANY_CAST_MOVEABLE, XTL_NO_EXCEPTIONS alone and -std=c++17 (quick); "
+                     "the combinations FAST+MOVEABLE, MOVEABLE+NO_EXCEPTIONS, all three, clang++ and -O0/-O2 in the thorough tier only; one translation unit, "
+                     "one thread, libstdc++, x86-64",
+                     "volatile-qualified cast targets and type_info objects from other shared libraries (the case ANY_IMPL_FAST_TYPE_INFO_COMPARE is unsafe for) "
+                     "are not exercised; class-specific operator new of a payload type is not exercised",
                      "throws are injected into copy/move constructors of the instrumented types only (std::string / shared_ptr copies are not made to throw)"],
         exhaustive=False)
